@@ -32,7 +32,7 @@ PROPS["C11"] = {
         plain("exh-pairs", "^TestExhaustivePairs$", shards=2),
         plain("exh-triples", "^TestExhaustiveTriples$", shards=4),
         plain("exh-final", "^TestExhaustiveFinalAddr$"),
-        rapid("rapid", "^TestProp", 5000, shards=2),
+        rapid("rapid", "^TestProp", 20000, shards=3),
     ],
     "thorough": [
         plain("exh-pairs", "^TestExhaustivePairs$", shards=2),
@@ -211,7 +211,7 @@ PROPS["C19"] = {
              "distinct by case hash."),
     "assumptions": ["documented panics (SourceAddr with an invalid sub-path, Must*, use of a closed builder) are not entry points", "a hang is declared only with a go-slug frame in the goroutine dump; otherwise the run is inconclusive"],
     "quick": [rapid("tree", "^TestPropTree$", 500, shards=2, timeout=900), rapid("bytes", "^TestPropUnpackBytes$", 2000, shards=2),
-              rapid("addrs", "^TestPropAddr$", 20000, shards=2), rapid("manifests", "^TestPropManifests$", 5000, shards=2)],
+              rapid("addrs", "^TestPropAddr$", 50000, shards=3), rapid("manifests", "^TestPropManifests$", 8000, shards=3)],
     "thorough": [rapid("tree", "^TestPropTree$", 8000, shards=6, timeout=7000), rapid("bytes", "^TestPropUnpackBytes$", 40000, shards=4),
                  rapid("addrs", "^TestPropAddr$", 400000, shards=4), rapid("manifests", "^TestPropManifests$", 100000, shards=4),
                  fuzz("FuzzUnpackBytes", "120s"), fuzz("FuzzAddr", "120s"), fuzz("FuzzManifest", "120s")],
@@ -230,7 +230,7 @@ PROPS["C06"] = {
              "Non-trivial = string with escape, query, sub-path, shorthand, upper case, port or version, or a derived value / two spellings; "
              "distinct by case hash."),
     "assumptions": ["strings are valid UTF-8", "the general parsers' documented refusal of surrounding blanks is honoured"],
-    "quick": [rapid("parsed", "^TestPropParsed$", 15000, shards=2), rapid("derived", "^TestPropDerived$", 15000, shards=2), rapid("pairs", "^TestPropPairs$", 10000, shards=1)],
+    "quick": [rapid("parsed", "^TestPropParsed$", 50000, shards=3), rapid("derived", "^TestPropDerived$", 50000, shards=3), rapid("pairs", "^TestPropPairs$", 40000, shards=2)],
     "thorough": [rapid("parsed", "^TestPropParsed$", 400000, shards=5), rapid("derived", "^TestPropDerived$", 400000, shards=5), rapid("pairs", "^TestPropPairs$", 300000, shards=3),
                  fuzz("FuzzSourceRoundTrip", "150s")],
 }
@@ -248,7 +248,7 @@ PROPS["C07"] = {
              "predicate over SourceType/URL/SubPath accessors. Non-trivial = non-canonical spelling, reject-class or mutated input, constructor "
              "or derived route; distinct by case hash."),
     "assumptions": ["the must-accept grammar is limited to forms shown in doc comments and the test table", "a four-part gitlab.com address is a registry address (documented precedence)"],
-    "quick": [rapid("strings", "^TestPropStrings$", 15000, shards=2), rapid("make", "^TestPropMake$", 20000, shards=1), rapid("resolved", "^TestPropResolved$", 8000, shards=1)],
+    "quick": [rapid("strings", "^TestPropStrings$", 50000, shards=3), rapid("make", "^TestPropMake$", 50000, shards=2), rapid("resolved", "^TestPropResolved$", 30000, shards=1)],
     "thorough": [rapid("strings", "^TestPropStrings$", 400000, shards=6), rapid("make", "^TestPropMake$", 400000, shards=4), rapid("resolved", "^TestPropResolved$", 200000, shards=2)],
 }
 
@@ -271,7 +271,7 @@ PROPS["C08"] = {
              "sub-path; metadata, registry source addresses and versions are retrievable unchanged. Non-trivial = closure of >=2 packages "
              "with a registry hop, relative dependency or repeated analysis; distinct by case hash."),
     "assumptions": ["dependency information is a function of package content (finders read files planted in the tree)", "nil metadata and empty metadata are equivalent"],
-    "quick": [rapid("complete", "^TestPropComplete$", 700, shards=4)],
+    "quick": [rapid("complete", "^TestPropComplete$", 800, shards=6)],
     "thorough": [rapid("complete", "^TestPropComplete$", 8000, shards=14)],
 }
 
@@ -304,7 +304,7 @@ PROPS["C17"] = {
              "Close panic (no bundle). Non-trivial = >=3 offered versions not listed in ascending order with a constraint excluding the "
              "overall newest, or several requests in one build; distinct by case hash."),
     "assumptions": ["set membership (allowed.Has) is taken from go-versions", "among build-metadata twins any maximal one is accepted as 'the' selection"],
-    "quick": [rapid("select", "^TestPropSelect$", 1500, shards=4)],
+    "quick": [rapid("select", "^TestPropSelect$", 2500, shards=6)],
     "thorough": [rapid("select", "^TestPropSelect$", 25000, shards=12)],
 }
 
@@ -354,7 +354,7 @@ PROPS["C10"] = {
              "that is definitely illegal (special file, out-of-bundle/climbing/dangling link) and not ignored, in a reachable package, must "
              "make an Add call fail. Non-trivial = a planted link or special file; distinct by case hash."),
     "assumptions": ["builds failing for stricter reasons (checksum refuses links to directories or dangling links) are fine"],
-    "quick": [rapid("sanitised", "^TestPropSanitised$", 1200, shards=4)],
+    "quick": [rapid("sanitised", "^TestPropSanitised$", 2000, shards=6)],
     "thorough": [rapid("sanitised", "^TestPropSanitised$", 15000, shards=12)],
 }
 
@@ -372,6 +372,6 @@ PROPS["C18"] = {
              "directories, siblings sharing the root's name prefix and paths above the root are refused. Thorough: native fuzzing of manifest "
              "bytes. Non-trivial = hostile 'local' or a real bundle; distinct by case hash."),
     "assumptions": ["file names are valid UTF-8 (an address is text)"],
-    "quick": [rapid("manifest", "^TestPropManifest$", 2500, shards=2), rapid("inverse", "^TestPropInverse$", 400, shards=2)],
+    "quick": [rapid("manifest", "^TestPropManifest$", 6000, shards=4), rapid("inverse", "^TestPropInverse$", 500, shards=4)],
     "thorough": [rapid("manifest", "^TestPropManifest$", 60000, shards=8), rapid("inverse", "^TestPropInverse$", 4000, shards=6), fuzz("FuzzOpenDirManifest", "120s")],
 }
